@@ -11,6 +11,10 @@ package main
 
 import (
 	"fmt"
+	"os"
+	"path/filepath"
+	"regexp"
+	"sort"
 	"strings"
 
 	"github.com/robfig/soy/data"
@@ -120,6 +124,7 @@ type progOpts struct {
 	maxTemplates   int      // > 0: bundles of 1..maxTemplates templates instead of 1..4
 	shapes         bool     // print-directive chains of every length 0..8 (marker / cancelling / non-cancelling mixes), list literals of 0..8 items
 	chainExtra     []string // user-installed non-cancelling directives usable in chains, e.g. "|bang"
+	helperNames    bool     // C04: probes whose let names are a loop variable followed by the suffixes the JavaScript generator derives helper names with (consumes no randomness when off)
 }
 
 // progMsgHook, when set (by a property's tagged file) and progOpts.msgPO is on,
@@ -580,6 +585,10 @@ func (g *progGen) block(env genv, d int, n int) string {
 		}
 		if g.o.scope && d > 0 && g.r.Chance(18) {
 			sb.WriteString(g.scopeProbe(env, d))
+			continue
+		}
+		if g.o.helperNames && d > 0 && g.r.Chance(10) {
+			sb.WriteString(g.helperNameProbe(env, d))
 			continue
 		}
 		c := g.r.Intn(24)
@@ -1333,4 +1342,118 @@ func (g *progGen) scopeProbe(env genv, d int) string {
 		}
 		return wrapL + "{let $" + p.name + ": " + ex + " /}{$" + p.name + "}" + g.call(inner, d) + wrapR
 	}
+}
+
+// ---- names at the boundary of the JavaScript generator's freshness invariant (option helperNames) ----
+
+// helperSuffixes: what soyjs appends to a loop variable to name the loop's helper variables: a fixed list (the
+// names Closure's and this generator's history used) joined with every capitalised literal that
+// soyjs/scope.go and soyjs/exec.go of the tree under check concatenate between two operands (loopVar + "Limit" + n),
+// so that a suffix introduced later is probed as well.
+var helperSuffixCache []string
+
+func helperSuffixes() []string {
+	if helperSuffixCache != nil {
+		return helperSuffixCache
+	}
+	set := map[string]bool{}
+	for _, x := range []string{"List", "ListLen", "Len", "Limit", "Index", "Init", "Step", "Data"} {
+		set[x] = true
+	}
+	repo := os.Getenv("VERIF_REPO")
+	if repo == "" {
+		repo = "/repo"
+	}
+	re := regexp.MustCompile(`\+\s*"([A-Z][A-Za-z]*)"\s*\+`)
+	for _, f := range []string{"soyjs/scope.go", "soyjs/exec.go"} {
+		if bs, err := os.ReadFile(filepath.Join(repo, f)); err == nil {
+			for _, m := range re.FindAllStringSubmatch(string(bs), -1) {
+				set[m[1]] = true
+			}
+		}
+	}
+	var out []string
+	for x := range set {
+		out = append(out, x)
+	}
+	sort.Strings(out)
+	helperSuffixCache = out
+	return out
+}
+
+// helperLike: a Soy name that reads like a helper of the loop over $v: v + suffix, now and then with a counter-like
+// tail (_1, 1, _2 ...), or v with only such a tail (x_1, x1).
+func (g *progGen) helperLike(v string) string {
+	tail := func() string { return g.r.Pick([]string{"_1", "1", "_2", "2", "_1_1", "_11", "11", "_"}) }
+	switch g.r.Intn(6) {
+	case 0:
+		return v + tail()
+	case 1:
+		return v + g.r.Pick(helperSuffixes()) + tail()
+	default:
+		return v + g.r.Pick(helperSuffixes())
+	}
+}
+
+// helperNameProbe: lets named like the helper variables of a loop, live while the loop runs -- bound before it and used
+// after it, and bound inside its body -- with the loop's own value, position and end marker printed in between; and the
+// same for the buffer of a content parameter (param_N).  The variable is new, or one of a few plain names so that
+// several loops over the same name and lets of the same helper-like name occur in one template.
+func (g *progGen) helperNameProbe(env genv, d int) string {
+	g.feat("probe-helper-names")
+	v := g.r.Pick([]string{"x", "i", "item", "h"})
+	if g.r.Chance(50) {
+		v = "h" + g.fresh("")
+	}
+	if g.r.Chance(12) {
+		// {let $param..} next to a call with a content parameter
+		g.feat("probe-helper-param-buffer")
+		nm := g.r.Pick([]string{"param", "param_1", "param1", "output", "output_"})
+		k := g.pk(kInt, kStr)
+		return "{let $" + nm + ": " + g.expr(env, k, 0) + " /}" + g.call(env.with(gvar{name: nm, k: k}), d) + "{$" + nm + "}"
+	}
+	outer, inner := g.helperLike(v), g.helperLike(v)
+	ko, ki := g.pk(kInt, kStr), g.pk(kInt, kStr)
+	var sb strings.Builder
+	sb.WriteString("[")
+	if g.r.Chance(25) {
+		g.feat("probe-helper-let-content")
+		ko = kStr
+		sb.WriteString("{let $" + outer + "}" + g.block(env, 0, 1) + "{/let}")
+	} else {
+		sb.WriteString("{let $" + outer + ": " + g.expr(env, ko, 0) + " /}")
+	}
+	envO := env.with(gvar{name: outer, k: ko})
+	loopEnv := envO.withLoop(gvar{name: v, k: kInt})
+	isRange := g.r.Chance(30)
+	if isRange {
+		g.feat("probe-helper-range")
+		sb.WriteString("{for $" + v + " in range(" + g.r.Pick([]string{"3", "1, 4", "0, 6, 2", "2"}) + ")}")
+	} else {
+		lk := g.pk(kListInt, kListInt, kEList)
+		g.topList = true
+		sb.WriteString("{foreach $" + v + " in " + g.expr(envO, lk, d-1) + "}")
+	}
+	first := g.r.Bool()
+	if first {
+		sb.WriteString("{let $" + inner + ": " + g.expr(loopEnv, ki, 0) + " /}")
+	}
+	sb.WriteString("{$" + v + "}:{index($" + v + ")}{isFirst($" + v + ") ? 'F' : ''}{isLast($" + v + ") ? 'L' : ''}")
+	if !first {
+		sb.WriteString("{let $" + inner + ": " + g.expr(loopEnv, ki, 0) + " /}")
+	}
+	bodyEnv := loopEnv.with(gvar{name: inner, k: ki})
+	sb.WriteString("{$" + inner + "}")
+	if inner != outer {
+		sb.WriteString("{$" + outer + "}")
+	}
+	sb.WriteString(g.block(bodyEnv, d-1, 1))
+	sb.WriteString("{$" + v + "}{isLast($" + v + ") ? '.' : ','}")
+	if isRange {
+		sb.WriteString("{/for}")
+	} else {
+		sb.WriteString("{/foreach}")
+	}
+	sb.WriteString("{$" + outer + "}]")
+	return sb.String()
 }
